@@ -16,6 +16,8 @@ def attribute_walk(code):
     from mwparserfromhell.nodes.extras import Attribute, Parameter
     out = []
     where = {}
+    slot = {}
+    holder = {}
 
     def codes_of(obj):
         res = []
@@ -26,6 +28,8 @@ def attribute_walk(code):
                 for item in v:
                     if isinstance(item, (Attribute, Parameter)):
                         res += [(k + "." + kk, vv) for kk, vv in codes_of(item)]
+                        for kk, vv in codes_of(item):
+                            holder[id(vv)] = item
         return res
 
     def walk(c, ancestors):
@@ -33,22 +37,25 @@ def attribute_walk(code):
             where[id(n)] = (id(c), idx)
             out.append((n, list(ancestors)))
             seen = set()
-            for _k, sub in codes_of(n):
+            for k, sub in codes_of(n):
                 if id(sub) in seen:
                     continue
                 seen.add(id(sub))
+                for m in sub.nodes:
+                    slot[id(m)] = (k.split(".")[-1], holder.get(id(sub)))
                 walk(sub, ancestors + [n])
     walk(code, [])
-    return out, where
+    return out, where, slot
 
 
 def check_tree(code):
-    from mwparserfromhell.nodes import Node
+    from mwparserfromhell.nodes import Tag
+    from mwparserfromhell.nodes.extras import Parameter
     nodes = code.filter()
     ids = [id(n) for n in nodes]
     if len(set(ids)) != len(ids):
         return "filter() yields a node twice"
-    walk, where = attribute_walk(code)
+    walk, where, slot = attribute_walk(code)
     # nodes reachable through attributes whose text is rendered must all be in filter()
     s = str(code)
     byid = {id(n): anc for n, anc in walk}
@@ -66,15 +73,20 @@ def check_tree(code):
         for a in byid[id(n)]:
             if id(a) in fpos and fpos[id(a)] > fpos[id(n)]:
                 return "filter() lists a node before the node that contains it"
-    # every Wikicode that contributes text is reachable: nodes missing from filter() must render nothing visible
+    # every Wikicode that contributes text is reachable: a node missing from filter() must lie in a Wikicode that its
+    # parent does not render - the contents of a self-closing tag, the name of a wiki-markup tag, a hidden parameter name, the closing name of a self-closing or wiki-markup tag
+    idset = set(ids)
     for n, anc in walk:
-        if id(n) not in set(ids):
-            # allowed only if the node lies in a Wikicode that the parent does not render
-            parent = anc[-1] if anc else None
-            if parent is not None and str(n) and str(n) in str(parent):
-                # may still be a coincidence of equal text; accept only if some yielded child has that text
-                if not any(str(n) == str(m) or str(n) in str(m) for m in nodes if m is not n and any(a is parent for a in byid.get(id(m), []))):
-                    return "a node that contributes text to %s is not reachable by filter(): %r" % (type(parent).__name__, str(n)[:60])
+        if id(n) in idset:
+            continue
+        parent = anc[-1] if anc else None
+        if parent is None:
+            return "a top-level node is not reachable by filter(): %r" % (str(n)[:60],)
+        attr, held_by = slot.get(id(n), (None, None))
+        unrendered = (isinstance(held_by, Parameter) and attr == "_name" and not held_by.showkey) or isinstance(parent, Tag) and held_by is None and ((attr == "_contents" and parent.self_closing) or (attr == "_tag" and parent.wiki_markup) or
+                                                  (attr == "_closing_tag" and (parent.self_closing or parent.wiki_markup)))
+        if not unrendered and id(parent) in idset:
+            return "a node in %s.%s, which is part of its text, is not reachable by filter(): %r" % (type(parent).__name__, attr, str(n)[:60])
     for cls in {type(n) for n in nodes}:
         typed = code.filter(forcetype=cls)
         if [id(n) for n in typed] != [id(n) for n in nodes if isinstance(n, cls)]:
@@ -100,6 +112,18 @@ def check_tree(code):
     if not isinstance(t, str):
         return "get_tree() did not return a string"
     return None
+
+
+def _subsequence(rd, md):
+    """the implementation's walk is the model's with some nodes left out"""
+    if len(rd) != 1 or len(md) != 1:
+        return False
+    a = [x for x in rd[0][2:].split(",") if x]
+    b = [x for x in md[0][2:].split(",") if x]
+    if len(a) >= len(b):
+        return False
+    it = iter(b)
+    return all(any(x == y for y in it) for x in a)
 
 
 def _work(seeds):
@@ -148,7 +172,10 @@ def run(tier, seed):
             c.cov["traces_validated_against_impl"] += 1
             md = [p for p in m.split(" | ") if p.startswith("D=")]
             rd = [p for p in rec.split(" | ") if p.startswith("D=")]
-            if not fail and md != rd:
+            if not fail and md != rd and _subsequence(rd, md):
+                c.fail("filter() misses nodes of the complete walk (model descend_code, proved to reach every child that is rendered): "
+                       "implementation %s vs model %s" % (rd[0][:400], md[0][:400]), {"seed": s, "text": text})
+            elif not fail and md != rd:
                 dis += 1
                 if dis <= 3:
                     c.broken.append({"file": "correspondence filter()", "line": 0, "statement": "descend_code (model tie)",
